@@ -25,19 +25,17 @@
                    (emptySharedAltDs 550-586; used by opStart and by the teardown)
      EStartDone    ... its Sync; resetInProgress = true
      EStartFail    prepareAltDs returned an error: no reset in progress
-     EStartCancel  the caller's ctx is cancelled while the worker runs opStart:
-                   ResetCids returns (746-748) WITHOUT having registered the deferred
-                   opCleanup; the worker finishes opStart (EDel, EStartDone) and then
-                   blocks forever sending the response on the unbuffered channel
-                   nobody reads any more: phase PWedged, no event is enabled.
      ECleanup      opCleanup(success=true) is received: final drainBuf (EAltWrite),
      ECleanSync    altDs.Sync (durability boundary, 646),
-     EFlip         the swap of s.ds/s.altDs, size = altSize, marker Put (654-668),
-     EFlipFail     the same when the marker Put FAILS: the error is only logged (666-668),
-     EMarkSync     marker Sync (670),
+     EFlip         the marker Put (654) succeeds; the swap of s.ds/s.altDs and size = altSize
+                   (668-676) are performed with it (see [flip]),
+     EFlipFail     the marker Put fails: the reset has failed, no swap (655-657),
+     EMarkSync     marker Sync (663),
      EAbort        opCleanup(success=false): cancellation, Close of the caller's ctx or a
-                   failed altDs call in phases A-C; EAbortClean: the final drain or
-                   the altDs.Sync of opCleanup failed (638-650),
+                   failed altDs call in phases A-C (a cancellation that arrives while the
+                   worker still runs opStart is noticed by the loop of phase A right after the
+                   answer to opStart has been collected, 745-751); EAbortClean: the final
+                   drain or the altDs.Sync of opCleanup failed (638-650),
      ETearSync     the Sync that ends emptySharedAltDs in the teardown,
      EFinish       resetInProgress=false, buf=nil, the teardown has returned (its
                    deletes are EDel events), the response is sent.
@@ -82,7 +80,7 @@ Definition greplay (j : list gentry) : gstore := fold_left gapply j gempty.
 Definition act (g : gstore) : bool := match g_mark g with Some 1%N => true | _ => false end.
 Definition mark_of (a : bool) : N := if a then 1%N else 0%N.
 
-Inductive phase := PIdle | PStarting | PStartOrphan | PWedged | PFilling | PClean0 | PClean1 | PClean2 | PTearing.
+Inductive phase := PIdle | PStarting | PFilling | PClean0 | PClean1 | PClean2 | PTearing.
 
 Record rst := {
   r_j : list gentry; r_synced : nat;
@@ -147,7 +145,7 @@ Definition gappend (j : list gentry) (i : bool) (b : batch) : list gentry :=
 Inductive revent :=
 | EPutBegin (ks : list mhk) | EPutCommit | EPutSync
 | EClose | ECloseSync
-| EStart (new : list mhk) | EDel (c : list skey) | EStartDone | EStartFail | EStartCancel
+| EStart (new : list mhk) | EDel (c : list skey) | EStartDone | EStartFail
 | EKey | EAltWrite (batch : bool) (c : list mhk) | EAltSync | ECount
 | ECleanup | ECleanSync | EFlip | EFlipFail | EMarkSync
 | EAbort | EAbortClean | ETearSync | EFinish.
@@ -168,15 +166,13 @@ Definition worker_free (s : rst) : bool :=
 Definition is_none {A} (o : option A) : bool := match o with None => true | Some _ => false end.
 Definition is_nil {A} (l : list A) : bool := match l with [] => true | _ => false end.
 
-(* resettable_keystore.go:666-668: a failed marker Put is only logged and the swap and
-   the teardown of the old slot go on.  Repairing the code (abort the swap instead)
-   is the one-line change [marker_fail_aborts := true]. *)
-Definition marker_fail_aborts : bool := false.
-
-(* the swap of opCleanup; [wrote] = the marker Put succeeded *)
-Definition flip (s : rst) (wrote : bool) : rst :=
+(* the marker Put of opCleanup succeeded, and the swap of s.ds/s.altDs with it.  (In the
+   code the swap follows the marker Sync, 663-676; the fields it changes are read by the
+   worker goroutine only, which is inside handleResetOp until the response is sent, so
+   performing it together with the marker write is not observable.) *)
+Definition flip (s : rst) : rst :=
   let a := negb (r_active s) in
-  {| r_j := if wrote then r_j s ++ [GMark (mark_of a)] else r_j s; r_synced := r_synced s;
+  {| r_j := r_j s ++ [GMark (mark_of a)]; r_synced := r_synced s;
      r_active := a; r_size := r_alt s; r_alt := r_alt s;
      r_rip := r_rip s; r_buf := r_buf s; r_wk := r_wk s; r_ph := PClean2; r_todo := r_todo s;
      r_loc := r_loc s; r_drn := r_drn s; r_counted := r_counted s; r_closed := r_closed s;
@@ -202,7 +198,7 @@ Definition alt_write (pb : nat) (s : rst) (fromb : bool) (c : list mhk) : option
   match c, sel with
   | _ :: _, Some (loc, drn, buf) =>
       if r_counted s then
-        match put_scan seen_dedups pb (alternate s) NoFault c [] 0 with
+        match put_scan pb (alternate s) NoFault c [] 0 with
         | Some (b, nw) =>
             Some {| r_j := gappend (r_j s) (negb (r_active s)) b; r_synced := r_synced s;
                     r_active := r_active s; r_size := r_size s;
@@ -242,7 +238,7 @@ Definition rstep (pb : nat) (s : rst) (e : revent) : option rst :=
   | EPutCommit =>
       match r_wk s with
       | Some (ks, None) =>
-          match put_scan seen_dedups pb (primary s) NoFault ks [] 0 with
+          match put_scan pb (primary s) NoFault ks [] 0 with
           | Some (b, nw) =>
               Some {| r_j := gappend (r_j s) (r_active s) b; r_synced := r_synced s; r_active := r_active s;
                       r_size := r_size s + Z.of_nat (length nw); r_alt := r_alt s;
@@ -287,7 +283,7 @@ Definition rstep (pb : nat) (s : rst) (e : revent) : option rst :=
       end
   | EDel c =>
       match r_ph s with
-      | PStarting | PStartOrphan | PTearing =>
+      | PStarting | PTearing =>
           Some (upd_j s (gappend (r_j s) (negb (r_active s)) (del_ops c)) (r_synced s))
       | _ => None
       end
@@ -301,20 +297,10 @@ Definition rstep (pb : nat) (s : rst) (e : revent) : option rst :=
                     r_a0 := r_a0 s; r_old := r_old s; r_new := r_new s; r_acked := r_acked s;
                     r_flipped := r_flipped s |}
           else None
-      | PStartOrphan =>
-          (* nobody receives the response any more: the worker blocks forever in
-             `op.response <- nil` (629), with resetInProgress already set *)
-          Some {| r_j := r_j s; r_synced := length (r_j s); r_active := r_active s; r_size := r_size s;
-                  r_alt := r_alt s; r_rip := true; r_buf := r_buf s; r_wk := r_wk s; r_ph := PWedged;
-                  r_todo := r_todo s; r_loc := r_loc s; r_drn := r_drn s; r_counted := r_counted s; r_closed := false;
-                  r_a0 := r_a0 s; r_old := r_old s; r_new := r_new s; r_acked := r_acked s;
-                  r_flipped := r_flipped s |}
       | _ => None
       end
   | EStartFail =>
       match r_ph s with PStarting => Some (upd_ph s PIdle) | _ => None end
-  | EStartCancel =>
-      match r_ph s with PStarting => Some (upd_ph s PStartOrphan) | _ => None end
   | EKey =>
       match r_ph s, r_todo s with
       | PFilling, k :: t =>
@@ -359,12 +345,8 @@ Definition rstep (pb : nat) (s : rst) (e : revent) : option rst :=
           then Some (upd_ph (upd_j s (r_j s) (length (r_j s))) PClean1) else None
       | _ => None
       end
-  | EFlip => match r_ph s with PClean1 => Some (flip s true) | _ => None end
-  | EFlipFail =>
-      match r_ph s with
-      | PClean1 => Some (if marker_fail_aborts then upd_ph s PTearing else flip s false)
-      | _ => None
-      end
+  | EFlip => match r_ph s with PClean1 => Some (flip s) | _ => None end
+  | EFlipFail => match r_ph s with PClean1 => Some (upd_ph s PTearing) | _ => None end
   | EMarkSync =>
       match r_ph s with
       | PClean2 => Some (upd_ph (upd_j s (r_j s) (length (r_j s))) PTearing)
